@@ -38,6 +38,7 @@ func (c *Ctx) osCall(method, arg string) IM {
 }
 
 func c05(c *Ctx) {
+	c.NoDiscardedErrors("errors/none-dropped", []string{"litefs", "internal", "chunk", "fuse"}, discardCore, 40)
 	p := c.P
 	c.ltxPublication()
 
